@@ -1473,8 +1473,11 @@ class SetItems(StackSliceOpcode):
             update_dict_keys.append(key)
             update_dict_values.append(value)
         if isinstance(pydict, ast.Dict) and not pydict.keys:
-            # the dict is empty, so add a new one
-            interpreter.stack.append(ast.Dict(keys=update_dict_keys, values=update_dict_values))
+            # the dict is an empty literal, so fill it in place; the memo may already hold a
+            # reference to this very node (picklers memoize a dict before filling it)
+            pydict.keys.extend(update_dict_keys)
+            pydict.values.extend(update_dict_values)
+            interpreter.stack.append(pydict)
         else:
             dict_name = interpreter.new_variable(pydict)
             update_dict = ast.Dict(keys=update_dict_keys, values=update_dict_values)
@@ -1498,8 +1501,11 @@ class SetItem(Opcode):
         key = interpreter.stack.pop()
         pydict = interpreter.stack.pop()
         if isinstance(pydict, ast.Dict) and not pydict.keys:
-            # the dict is empty, so add a new one
-            interpreter.stack.append(ast.Dict(keys=[key], values=[value]))
+            # the dict is an empty literal, so fill it in place; the memo may already hold a
+            # reference to this very node (picklers memoize a dict before filling it)
+            pydict.keys.append(key)
+            pydict.values.append(value)
+            interpreter.stack.append(pydict)
         else:
             dict_name = interpreter.new_variable(pydict)
             assignment = ast.Assign(
